@@ -1,1 +1,83 @@
-CFG = {'harness_pkg': 'cres', 'coq_modules': ['Resource.Judge', 'Resource.TreeJudge04'], 'generators': ['C04', 'C04T'], 'judge_module': 'Resource.Judge', 'allowed_axioms': [], 'theorems': ['C04_one_event_per_effective_write', 'C04_no_event_for_failed_write', 'C04_kind_and_old_new', 'C04_stream_is_seed_then_script', 'C04_seeds_shape', 'C04_last_seed_flag', 'C04_updates_only_no_seed', 'C04_value_stream_exact', 'C04_equivalence_suppresses_exactly_equivalent', 'C04_pull_id_ignores_other_ids', 'C04_pull_id_closed_iff_removed', 'C04_history_one_event_per_effective_write', 'C04_history_stream', 'C04_history_fold_is_final_list', 'C04_collection_equivalence_exact', 'C04_masked_out_write_suppressed', 'C04_visible_write_delivered', 'C04_value_event_time', 'C04_delete_event', 'C04_event_time_v0_refuted', 'C04_value_pull_raw_last_v0_refuted', 'C04_nonvacuous', 'C04_nonvacuous_equivalence_reflexive', 'C04_nonvacuous_masked_out', 'C04_nonvacuous_zero_write_time'], 'level_text': 'Theorems (Props/C04.v, closed, arbitrary message algebra / read mask / history): every call publishes nothing or exactly one event that describes the transition (id, old = stored before, new = stored after, REMOVE iff gone, time = stored change time = the explicit write time whatever it is, else the clock; also for Delete and Value.Set); failed calls publish nothing; ADD iff absent before; for EVERY call sequence from every sorted contents (induction over the history): each call publishes at most one event, a subscriber opened at any point gets the seed of the contents at that point followed by exactly the events of the later calls in order, projected by its read mask, and its folded view equals the final List; seeds are one ADD per item in id order, flagged, stored time, exactly the final one last-seed; updates-only has no seed; Value stream exact; with an equivalence a change is delivered exactly when what the subscriber is SENT (after the read mask) is not equivalent to what it holds — for a Collection: seed ++ the projected events whose projected old/new are not equivalent, so a write that changes only masked-out fields is suppressed. Tied to the code per run by ~320 random histories with a real backpressured subscriber + ~170 directed histories (equivalence x read mask x writes outside the mask; explicit write times at the boundaries: zero time.Time, epoch, epoch-1ns, before the previous change, year 9999, max int64 ns; 2-3 simultaneous Value subscribers with different masks) over the flat algebra, and ~150 histories over FULL messages (TestAllTypes and trait messages Brightness, AirTemperature, ElectricMode, OnOff, EnergyLevel; nested read masks via WithReadMask/WithReadPaths, WithNoDuplicates / WithMessageEquivalence / WithEquivalence(projection), WithInitialRecord / WithInitialValue; Resource/TreeJudge04.v). Every field of every event is compared with the model; on the observation alone: count, per-id old/new chain, fold = final List, seed time = the time the event of that write carried (witness subscriber), k-th event <-> k-th successful write (explicit time exact, clock readings increasing, new value = projection of what the call returned), and with an equivalence: no delivered event has equivalent old/new, delivered values = committed values de-duplicated against the last delivered one.', 'level_note': 'Trusted: Coq kernel + vm_compute; hand models Resource/Impl.v + Pull.v; single writer, backpressured, receiving subscriber (lossy and concurrent delivery are C09/C03); quiescence by a two-write barrier (the directed and tree cases then cancel and wait for the consumer goroutine to end, no sleeps; the older random cases keep a 25 ms sleep fallback when the barrier itself is filtered out).', 'trusted_base': ['modelled, not verified: pkg/masks (flat form in Resource/Flat.v; tree form Masks/*.v, the subject of C05/C06), proto.Equal/Clone/Merge (Msg/Msg.v), sync.RWMutex (sequential use), minibus with backpressured listeners'], 'assumptions': ['one caller at a time', 'the correspondence runs over three scalar fields of TestAllTypes with top-level masks (flat) and over full TestAllTypes / trait messages with nested masks (tree); theorems are over an abstract algebra']}
+CFG = {'allowed_axioms': [],
+ 'assumptions': ['one caller at a time',
+                 'the correspondence runs over three scalar fields of TestAllTypes with top-level masks (flat) and over full TestAllTypes / trait '
+                 'messages with nested masks (tree); theorems are over an abstract algebra'],
+ 'coq_modules': ['Resource.Judge', 'Resource.TreeJudge04', 'Resource.HeldJudge', 'Resource.Held04Proofs'],
+ 'generators': ['C04', 'C04T', 'C04H'],
+ 'harness_pkg': 'cres',
+ 'judge_module': 'Resource.Judge',
+ 'level_note': 'Trusted: Coq kernel + vm_compute; hand models Resource/Impl.v + Pull.v; single writer, backpressured, receiving subscriber (lossy '
+               'and concurrent delivery are C09/C03); quiescence by a two-write barrier (the directed and tree cases then cancel and wait for the '
+               'consumer goroutine to end, no sleeps; the older random cases keep a 25 ms sleep fallback when the barrier itself is filtered out). '
+               'C04H settles a backpressured subscriber by a second write issued from a goroutine while the harness goroutine receives (bus '
+               'backpressure: the call returns once the Pull goroutine has taken the event, i.e. has finished with the previous one); the lossy '
+               'scenarios are judged by the oracle only. The cancel-during-delivery family contains one 3 ms pause that selects the interleaving '
+               '(not a verdict).',
+ 'level_text': 'Theorems (Props/C04.v, closed, arbitrary message algebra / read mask / history): every call publishes nothing or exactly one event '
+               'that describes the transition (id, old = stored before, new = stored after, REMOVE iff gone, time = stored change time = the '
+               'explicit write time whatever it is, else the clock; also for Delete and Value.Set); failed calls publish nothing; ADD iff absent '
+               'before; for EVERY call sequence from every sorted contents (induction over the history): each call publishes at most one event, a '
+               'subscriber opened at any point gets the seed of the contents at that point followed by exactly the events of the later calls in '
+               'order, projected by its read mask, and its folded view equals the final List; seeds are one ADD per item in id order, flagged, '
+               'stored time, exactly the final one last-seed; updates-only has no seed; Value stream exact; with an equivalence a change is '
+               'delivered exactly when what the subscriber is SENT (after the read mask) is not equivalent to what it holds — for a Collection (the '
+               'held map of the code since /repo 3a50d70, Resource/Pull.v pull_collection_held; ANY comparer, read mask AND include predicate, every '
+               'history with deletes, re-adds, items leaving and re-entering the filter): the subscriber starts out holding what List with its '
+               'options shows, the stream is the seed followed by exactly those changes of the equivalence-free stream whose new value is not '
+               'equivalent to what it holds for the id (the value last SENT, nothing after a delivered REMOVE - so a re-add or a return into the '
+               'filter is delivered whatever its value), its fold is equivalent to the final List id by id (reflexive comparer), and the '
+               'old-against-new comparison it replaced gives the same stream for equivalence relations (refuted for a non-transitive comparer); a '
+               'write that changes only masked-out fields is suppressed. Tied to the code per run by ~320 random histories with a real backpressured '
+               'subscriber + ~170 directed histories (equivalence x read mask x writes outside the mask; explicit write times at the boundaries: '
+               'zero time.Time, epoch, epoch-1ns, before the previous change, year 9999, max int64 ns; 2-3 simultaneous Value subscribers with '
+               'different masks) over the flat algebra, and ~150 histories over FULL messages (TestAllTypes and trait messages Brightness, '
+               'AirTemperature, ElectricMode, OnOff, EnergyLevel; nested read masks via WithReadMask/WithReadPaths, WithNoDuplicates / '
+               'WithMessageEquivalence / WithEquivalence(projection), WithInitialRecord / WithInitialValue; Resource/TreeJudge04.v). Every field of '
+               'every event is compared with the model; on the observation alone: count, per-id old/new chain, fold = final List, seed time = the '
+               'time the event of that write carried (witness subscriber), k-th event <-> k-th successful write (explicit time exact, clock readings '
+               'increasing, new value = projection of what the call returned), and with an equivalence: no delivered event has equivalent old/new, '
+               'delivered values = committed values de-duplicated against the last delivered one. Plus (generator C04H, judge Resource/HeldJudge.v) '
+               '~260 scenarios per run of a collection WITH an equivalence (none / no-duplicates / one field) x include predicate x read mask x '
+               'seeded / updates-only x backpressure / lossy over 1-3 ids with scripted delete / re-add equivalent / re-add different / leave the '
+               'filter / re-enter equivalent / re-enter different / update steps: with backpressure delivery is settled after EVERY write and the '
+               'fold of the stream received so far is compared with List with the same options up to the equivalence, id by id; and a directed '
+               'family with 3-5 backpressured subscribers where one cancels while a write is half-way delivered (each survivor: exactly one event '
+               'per successful write).',
+ 'theorems': ['C04_one_event_per_effective_write',
+              'C04_no_event_for_failed_write',
+              'C04_kind_and_old_new',
+              'C04_stream_is_seed_then_script',
+              'C04_seeds_shape',
+              'C04_last_seed_flag',
+              'C04_updates_only_no_seed',
+              'C04_value_stream_exact',
+              'C04_equivalence_suppresses_exactly_equivalent',
+              'C04_pull_id_ignores_other_ids',
+              'C04_pull_id_closed_iff_removed',
+              'C04_history_one_event_per_effective_write',
+              'C04_history_stream',
+              'C04_history_fold_is_final_list',
+              'C04_collection_equivalence_exact',
+              'C04_masked_out_write_suppressed',
+              'C04_visible_write_delivered',
+              'C04_value_event_time',
+              'C04_delete_event',
+              'C04_event_time_v0_refuted',
+              'C04_value_pull_raw_last_v0_refuted',
+              'C04_nonvacuous',
+              'C04_nonvacuous_equivalence_reflexive',
+              'C04_nonvacuous_masked_out',
+              'C04_nonvacuous_zero_write_time',
+              'C04_held_stream_exact',
+              'C04_held_without_equivalence',
+              'C04_held_delivered_iff_not_equivalent_to_held',
+              'C04_remove_delivered_holds_nothing',
+              'C04_readd_after_remove_delivered',
+              'C04_held_fold_equivalent_to_final_list',
+              'C04_oldnew_v0_is_held_for_equivalence_relations',
+              'C04_oldnew_v0_refuted',
+              'C04_nonvacuous_readd_equivalent',
+              'C04_nonvacuous_reenter_equivalent',
+              'C04_nonvacuous_equivalence_presence'],
+ 'trusted_base': ['modelled, not verified: pkg/masks (flat form in Resource/Flat.v; tree form Masks/*.v, the subject of C05/C06), '
+                  'proto.Equal/Clone/Merge (Msg/Msg.v), sync.RWMutex (sequential use), minibus with backpressured listeners']}
